@@ -300,7 +300,19 @@ fn process_deposits_for_single_pool<C: ContentAddrStore>(
     if total_lefts == 0 || total_rights == 0 {
         return;
     }
-    let total_mtsqrt = total_lefts.sqrt().saturating_mul(total_rights.sqrt());
+    // Each deposit is weighted by sqrt(left) * sqrt(right); the shares are taken out of the sum of the weights.
+    // (Dividing by sqrt(total left) * sqrt(total right) instead lets the shares add up to more than one: two
+    // deposits of (4, 4) would each receive all of the newly minted liquidity.)
+    let total_mtsqrt = deposits
+        .iter()
+        .map(|tx| {
+            tx.outputs[0]
+                .value
+                .0
+                .sqrt()
+                .saturating_mul(tx.outputs[1].value.0.sqrt())
+        })
+        .fold(0u128, |a, b| a.saturating_add(b));
     // main logic here
     let total_liqs = if let Some(mut pool_state) = state.pools.get(pool) {
         let liq = pool_state.deposit(total_lefts, total_rights);
